@@ -3,6 +3,7 @@ package main
 import (
 	"fmt"
 	"go/token"
+	"go/types"
 	"strings"
 
 	"golang.org/x/tools/go/ssa"
@@ -84,6 +85,7 @@ func checkC03(c *Check) {
 		return
 	}
 	// ---- R1
+	redirectCookieOutlivesLogin(c, "C03.R1", R, m)
 	rdName := resolveCell(stripConv(m.RedirCookie.Common().Args[0]))
 	nc, _, ok := asCall(rdName)
 	c.Obl(ok && nc.Common().StaticCallee() == R.CookieName && isHandlerConfig(nc.Common().Args[0]), "C03.R1", "cookie-name/written", P.Pos(m.RedirCookie.Pos()),
@@ -270,6 +272,10 @@ func checkC03(c *Check) {
 	// by the rules of C10.R1 (each limit applied only when its timeout is > 0, against its own timestamp)
 	if c.ID == "C03" {
 		importObls(c, "C10", checkC10, "C03.R2", func(o *Obligation) bool { return strings.HasPrefix(o.Key, "C10.R1/predicate") })
+		// the tokens just stored are found valid by the next request: the expiry test answers `not expired` exactly under
+		// Expiration().Before(now) == false (C01.R4) — a stricter test (issued-at in the future, not-before) sends a user
+		// whose provider's clock runs ahead straight back to the provider, for ever
+		importObls(c, "C01", checkC01, "C03.R4", func(o *Obligation) bool { return strings.HasPrefix(o.Key, "C01.R4/not-expired-return") })
 		// the callback reaches the OIDC filter: a path that some trigger rule includes is checked whatever another rule
 		// excludes (decision shape of C07.R3)
 		importObls(c, "C07", checkC07, "C03.R8", func(o *Obligation) bool {
@@ -511,6 +517,7 @@ func checkC11(c *Check) {
 	okURL := exchangeURLOK(R, m.RfExchange)
 	c.Obl(okURL, "C11.R1", "url", P.Pos(m.RfExchange.Pos()), "sent to the configured token URI", "the refresh request is not sent to the configured token URI")
 	exchangeIsSentOnce(c, "C11.R1", R)
+	exchangeKeepsItsForm(c, "C11.R1", R)
 	// guard at the call site
 	fs := FactsOf(pr).At(site)
 	expired := false
@@ -1314,4 +1321,64 @@ func exchangeRejectsForEnumeratedReasonsOnly(c *Check, rule string, R *Roles) {
 			"the token exchange returns without tokens for a reason outside {request/transport/read/decode error, status != 200} (condition: "+descLastCond(r)+"): a compliant provider's answer is refused")
 	}
 	c.Obl(n >= 3, rule, "exchange-rejections", P.Pos(ex.Pos()), fmt.Sprintf("%d failing returns, all for enumerated reasons", n), "failing returns of the token exchange not found (anchor lost)")
+}
+
+// exchangeKeepsItsForm: the token exchange function sends the form and the headers it was handed. It does not write to
+// them (url.Values.Set/Add/Del, map updates) — not even through a second name for the same map (`params := form` is
+// not a copy): a value "redacted for the log" would be what the provider receives.
+func exchangeKeepsItsForm(c *Check, rule string, R *Roles) {
+	P := c.P
+	ex := R.TokenExchange
+	if !c.Anchor(rule, "token exchange function", ex != nil) {
+		return
+	}
+	var maps []*ssa.Parameter
+	for _, p := range ex.Params {
+		if _, isMap := p.Type().Underlying().(*types.Map); isMap {
+			maps = append(maps, p)
+		}
+	}
+	if !c.Anchor(rule, "form/header parameters of the token exchange function", len(maps) >= 1) {
+		return
+	}
+	aliases := func(v ssa.Value) *ssa.Parameter {
+		for _, l := range Leaves(v, leafOpts{noConcat: true}) {
+			l = resolveCell(stripConv(l))
+			for _, p := range maps {
+				if l == ssa.Value(p) {
+					return p
+				}
+			}
+		}
+		return nil
+	}
+	bad := ""
+	for _, f := range deepFuncs(ex, 1) {
+		if f != ex && f.Parent() != ex {
+			continue
+		}
+		for _, b := range f.Blocks {
+			for _, ins := range b.Instrs {
+				switch x := ins.(type) {
+				case *ssa.MapUpdate:
+					if p := aliases(x.Map); p != nil {
+						bad = "an element of the parameter " + p.Name() + " is assigned at " + posOf(P, x)
+					}
+				case ssa.CallInstruction:
+					if isCallToAny(x, "net/url.Values.Set", "net/url.Values.Add", "net/url.Values.Del", "net/http.Header.Set", "net/http.Header.Add", "net/http.Header.Del") && len(x.Common().Args) > 0 {
+						if p := aliases(x.Common().Args[0]); p != nil {
+							bad = shortID(funcID(calleeOf(x).Obj)) + " is called on the parameter " + p.Name() + " (or another name for the same map) at " + posOf(P, x)
+						}
+					}
+					if bi, isB := x.Common().Value.(*ssa.Builtin); isB && (bi.Name() == "delete" || bi.Name() == "clear") && len(x.Common().Args) > 0 {
+						if p := aliases(x.Common().Args[0]); p != nil {
+							bad = bi.Name() + " is applied to the parameter " + p.Name() + " at " + posOf(P, x)
+						}
+					}
+				}
+			}
+		}
+	}
+	c.Obl(bad == "", rule, "exchange-keeps-its-form", P.Pos(ex.Pos()), "the exchange function only reads the form and headers it was given",
+		"the token exchange function modifies what it was asked to send: "+bad+" — the provider receives something else than the caller built (a redacted refresh token or client secret is rejected)")
 }
